@@ -109,6 +109,8 @@ var c11Pool = []string{
 	"http://app.example/insecure", "https://app.example/a/b", "http://127.0.0.1/cb?tenant=1", "http://app.localhost/cb",
 	"/cb", "//app.example/cb", "app.example/cb",
 	"https://app.example/cb%2Fv2", "https://app.example/acme%3Aeu/cb", "https://app.example/q?",
+	// loopback IP literals registered under a scheme other than http: the any-port allowance is for http requests only
+	"https://127.0.0.1/cb", "https://[::1]:9443/cb?tenant=a", "com.example.app://127.0.0.1/cb",
 }
 
 func c11Mutations(base string) []string {
